@@ -43,6 +43,10 @@ var (
 		// diff.dstPrefix in the user's configuration would change.
 		"--src-prefix=a/",
 		"--dst-prefix=b/",
+		// Root commits (a new repository's first commit, an orphan branch,
+		// the untracked-files commit of "git stash -u") must be shown as
+		// additions even if log.showRoot is false in the user's configuration.
+		"--root",
 		"-G", "oid sha256:", // only diffs which include an lfs file SHA change
 		"-p",                             // include diff so we can read the SHA
 		"-U12",                           // Make sure diff context is always big enough to support 10 extension lines to get whole pointer
